@@ -1,4 +1,4 @@
-import FxVerif.Model.C04
+import FxVerif.Model.C04Claims
 import FxVerif.Model.Util
 /-! line-protocol driver for the C04 model: `lake env lean --run Driver/C04.lean < ops.txt`
 
@@ -110,18 +110,60 @@ def parseOp (ws : List String) : Option Op :=
     pure (.convertDenom (← g.toNat?) (← u.toNat?) (← r.toNat?) (← n.toNat?) (← parseDen a) (← parseDen b))
   | _ => none
 
-def step' (s : State) (line : String) : State × String :=
+def showBeh : Option Beh → String
+  | none => "-"
+  | some .keep => "keep"
+  | some (.reenter c m) => s!"re:{c}:{m}"
+
+def showClaim : Claim → String
+  | .deposit g u n e => s!"dep:{g}:{u}:{n}:{if e then 1 else 0}"
+  | .call to ts b => s!"call:{to}:{showBeh b}:{showTokens ts}"
+  | .callFail r ts => s!"fail:{r}:{showTokens ts}"
+  | .result n ok => s!"res:{n}:{if ok then 1 else 0}"
+
+def showState2 (s : State2) : String :=
+  -- contracts that were ever the target of an observed bridge call (the others hold nothing)
+  let used := (s.seen.filterMap fun e => match e.2.2 with
+    | .call to _ (some _) => some to
+    | _ => none).eraseDups.mergeSort (· ≤ ·)
+  let contracts := used.flatMap fun u => allAssets.filterMap fun (sn, as) =>
+    let v := s.base.L.bal as (Addr.user u)
+    if v == 0 then none else some s!"u{u}.{sn}={v}"
+  let pend := (List.range nChains).flatMap fun c =>
+    ((s.pend c).mergeSort (fun a b => a.nonce ≤ b.nonce)).map fun p => s!"q{c}.{p.nonce}={showClaim p.claim}"
+  " ".intercalate ([showState s.base] ++ contracts ++ pend |>.filter (· != ""))
+
+def parseBeh (w : String) : Option (Option Beh) :=
+  if w == "-" then some none else if w == "keep" then some (some .keep) else
+  match w.splitOn ":" with
+  | ["re", c, m] => do pure (some (.reenter (← c.toNat?) (← m.toNat?)))
+  | _ => none
+
+def parseOp2 (ws : List String) : Option Op2 :=
+  match ws with
+  | ["obs", c, n, "dep", g, u, a, e] => do
+    pure (.observe (← c.toNat?) (← n.toNat?) (.deposit (← g.toNat?) (← u.toNat?) (← a.toNat?) (e == "1")))
+  | ["obs", c, n, "call", to, b, ts] => do
+    pure (.observe (← c.toNat?) (← n.toNat?) (.call (← to.toNat?) (← parseTokens ts) (← parseBeh b)))
+  | ["obs", c, n, "fail", r, ts] => do
+    pure (.observe (← c.toNat?) (← n.toNat?) (.callFail (← r.toNat?) (← parseTokens ts)))
+  | ["obs", c, n, "res", m, ok] => do
+    pure (.observe (← c.toNat?) (← n.toNat?) (.result (← m.toNat?) (ok == "1")))
+  | ["exec", c, n] => do pure (.exec (← c.toNat?) (← n.toNat?))
+  | ws => (parseOp ws).map .base
+
+def step' (s : State2) (line : String) : State2 × String :=
   match words line with
   | "reset" :: rest =>
     let m0fx := (rest.head?.bind String.toNat?).getD 0
     -- the FX locked in the eth module account at genesis is what circulates on Ethereum
-    (initE (ledger0 m0fx) (fun c g => if c = 0 ∧ g = 0 then m0fx else 0), "ok")
+    (init2 (initE (ledger0 m0fx) (fun c g => if c = 0 ∧ g = 0 then m0fx else 0)), "ok")
   | ws =>
-    match parseOp ws with
+    match parseOp2 ws with
     | none => (s, "bad-op")
     | some op =>
-      match step cfg0 s op with
-      | .ok s' => (s', "ok " ++ showState s')
-      | .error _ => (s, "err " ++ showState s)
+      match step2 cfg0 s op with
+      | .ok s' => (s', "ok " ++ showState2 s')
+      | .error _ => (s, "err " ++ showState2 s)
 
-def main : IO Unit := runDriver step' (init (ledger0 0))
+def main : IO Unit := runDriver step' (init2 (init (ledger0 0)))
